@@ -149,9 +149,23 @@ def _gen_policy(rng, n_schemes=None, with_cats=True, stringly=False, disabled=No
                 o["min_rounds"], o["max_rounds"] = a, b
             elif r < 0.75:
                 o["max_rounds"] = b
+            eff = dict(o)
+            if rng.random() < 0.15:
+                # the 'rounds' option: default, minimum and maximum at once, each still overridable on its own
+                a = max(a, COSTED[s][0])
+                d = max(d, a)
+                o = {"rounds": d}
+                r = rng.random()
+                if r < 0.35:
+                    o["min_rounds"] = a
+                elif r < 0.7:
+                    o["max_rounds"] = max(b, d)
+                elif r < 0.8:
+                    o["min_rounds"], o["max_rounds"] = a, max(b, d)
+                eff = {"default_rounds": d, "min_rounds": o.get("min_rounds", d), "max_rounds": o.get("max_rounds", d)}
             if rng.random() < 0.2:
-                o["vary_rounds"] = rng.choice([1, 2, 0.1, 0.25, 0.125, 0.005, "10%", "12.5%", "3"])
-            merged[(None, s)] = dict(o)
+                o["vary_rounds"] = rng.choice([1, 2, 0.1, 0.25, 0.125, 0.005, "10%", "12.5%", "3", 1.0, "100%"])
+            merged[(None, s)] = dict(eff)
             for k, v in o.items():
                 cfg[f"{s}__{k}"] = str(v) if stringly and rng.random() < 0.3 and not isinstance(v, str) else v
     # deprecated / default
@@ -166,7 +180,7 @@ def _gen_policy(rng, n_schemes=None, with_cats=True, stringly=False, disabled=No
         cand = [s for s in schemes if s not in (cfg.get("deprecated") or []) or cfg.get("deprecated") in (["auto"], "auto")]
         cfg["default"] = rng.choice(cand)
     if rng.random() < 0.2:
-        cfg[rng.choice(["vary_rounds", "vary_rounds", "all__vary_rounds"])] = rng.choice([1, 0.1, 0.25])
+        cfg[rng.choice(["vary_rounds", "vary_rounds", "all__vary_rounds"])] = rng.choice([1, 0.1, 0.25, 1.0, "100%"])
     if rng.random() < 0.1:
         cfg["truncate_error"] = rng.choice([True, False])
     cats = []
@@ -275,7 +289,11 @@ def _delta(rng, cfg, truncate=False):
     if rng.random() < 0.15:
         # a context-wide (scheme-less) option, given in its bare spelling or through the 'all' pseudo-scheme
         k = rng.choice(["vary_rounds", "vary_rounds", "truncate_error" if truncate else "vary_rounds", "all__vary_rounds"])
-        return {k: rng.choice([0, 1, 0.1, 0.25, "10%"]) if "vary" in k else rng.choice([True, False])}
+        return {k: rng.choice([0, 1, 0.1, 0.25, "10%", 1.0, "100%"]) if "vary" in k else rng.choice([True, False])}
+    if r < 0.07 and costed:
+        s = rng.choice(costed)
+        a, dflt, b = _triple(rng, s, beyond=False)
+        return {f"{rng.choice(['', 'admin__', 'staff__'])}{s}__rounds": dflt}
     if r < 0.4 and costed:
         s = rng.choice(costed)
         a, dflt, b = _triple(rng, s, beyond=False)
@@ -288,7 +306,7 @@ def _delta(rng, cfg, truncate=False):
             d["default"] = schemes[0]
     elif r < 0.8 and costed:
         s = rng.choice(costed)
-        d[f"{s}__vary_rounds"] = rng.choice([0, 1, 0.1, 0.375, "10%"])
+        d[f"{s}__vary_rounds"] = rng.choice([0, 1, 0.1, 0.375, "10%", 1.0, "1.0"])
     elif costed:
         s = rng.choice(costed)
         c = rng.choice(CATS)
@@ -537,6 +555,13 @@ class _PolicyRun:
         c = cost_of(h, d)
         lo, hi = m.window(d, cat)
         f = self.facts[d]
+        if d == "bsdi_crypt" and lo is not None and lo == hi and lo % 2 == 0:
+            # unsatisfiable by design of the format: bsdi_crypt only generates odd costs and itself flags even ones, and this
+            # window holds a single even value (e.g. bsdi_crypt__rounds = 26); nothing can be asked of the new hash's cost
+            ctx.probe("bsdi_window_without_odd_cost")
+            r = _call(self.cc.verify, pw, h, category=cat)
+            ctx.check(r == ("ok", True), "C04", "fresh-hash-does-not-verify", f"{where}: {h!r} / {pw!r} -> {r[:2]}", scheme=d)
+            return
         if f.has_rounds and not m.window_empty(d, cat):
             want = m.cost(d, cat)
             if m.varies(d, cat):
